@@ -523,7 +523,7 @@ impl Property for C08 {
             "Not compared by design: checkpoint bytes (hash- and address-ordered), the pending whitespace of script::Component, \\dump's file-name counter (serde(skip) in the repository).".into(),
             "A line that panics or exhausts the step budget in the reference poisons the VM; later lines of that job are not judged (panics are C09's subject).".into(),
             "Tag numbering and code addresses are per OS process and are not varied: restores happen in fresh threads of one OS process.".into(),
-            "The wall clock has no path into a restore in this build (texlang-stdlib without the `time` feature); the boot clock is a job input.".into(),
+            "texlang-stdlib is built with its default features (as shipped, `time` on): `Default` of the time component reads the real clock once when a VM is created, and the simulator overwrites the component with the job's boot clock before the first line; a restored VM must show the checkpointed values, so a restore that consults the wall clock is a violation (its values differ from the reference's).".into(),
         ]
     }
     fn components(&self) -> serde_json::Value {
